@@ -144,6 +144,23 @@ def rule_a(ctx, ix):
                    detail='Viewer subscribes %s with filter %s (`%s`): %s' % (
                        msg, flt, txt, 'a shown subset whose dataset has no layer in this viewer is never removed/updated'
                        if not want_data else 'new subsets of shown datasets are not added'), where=v.where)
+    # a removed dataset takes its subsets with it, and a viewer may show those without showing the dataset: the delete subscription
+    # is not filtered on the dataset having a layer of its own
+    for mq, h, flt in subs:
+        if mq != M + 'DataCollectionDeleteMessage':
+            continue
+        if flt is None:
+            ctx.ob(R, '%s <- DataCollectionDeleteMessage filter' % v.construct, 'the dataset-removed subscription is unfiltered', True)
+            continue
+        ff = v.resolve_func(flt.rpartition('.')[2])
+        txt = ' '.join(unparse(r.value) for r in returns_of(ff) if r.value is not None) if ff is not None else flt
+        narrow = '.data in' in txt and 'subset' not in txt
+        ctx.idiom(R, '%s <- DataCollectionDeleteMessage filter' % v.construct, 'the dataset-removed subscription is unfiltered',
+                  accepted=False, absent=narrow,
+                  detail_absent='Viewer subscribes DataCollectionDeleteMessage with filter %s (`%s`), which accepts the message only when '
+                                'the removed dataset has a layer of its own: a viewer that shows only subsets of that dataset keeps their '
+                                'layers (and layer states) after the dataset left the collection' % (flt, txt),
+                  shape='filter %s: %s' % (flt, txt[:120]), where=v.where)
     f = v.resolve_func('remove_data')
     from .. import cond
     from ..util import elementwise
